@@ -81,6 +81,9 @@ Definition rank_ok (nl : nat) (rk : lock -> nat) (H : list hold) (l : lock) : Pr
 Section Logic.
 (* what must hold of the locks in hand when a blocking acquisition of l is requested *)
 Variable bl : list hold -> lock -> Prop.
+(* whether the program may set a poison flag at all: [True] for the rank discipline; with [False] the judgement also says
+   "no Poisonable is ever poisoned" (C10: executions without panics), and the world invariant [clean] keeps every flag clear *)
+Variable pz : Prop.
 
 Definition post := list hold -> bool -> Prop.
 
@@ -104,7 +107,8 @@ Fixpoint wp (p : prog) (H : list hold) (K : bool) (Qr : val -> post) (Qt QF : po
       | OKeyUnlock => wp (k VUnit) H false Qr Qt QF
       | OKeyProbe => wp (k (VBool (negb K))) H K Qr Qt QF
       | OPoisoned _ | OSeePoison _ => forall b, wp (k (VBool b)) H K Qr Qt QF
-      | OPoison _ | OClearPoison _ | OMark _ => wp (k VUnit) H K Qr Qt QF
+      | OPoison _ => pz /\ wp (k VUnit) H K Qr Qt QF
+      | OClearPoison _ | OMark _ => wp (k VUnit) H K Qr Qt QF
       | OWrite _ l => In (l, true) H /\ wp (k VUnit) H K Qr Qt QF          (* user data is written under the exclusive hold *)
       | ORead _ l => (exists x, In (l, x) H) /\ forall n, wp (k (VNat n)) H K Qr Qt QF   (* and read under a hold *)
       end
@@ -138,7 +142,8 @@ Definition agree (t : tid) (w : world) (H : list hold) (K : bool) : Prop :=
   (forall l, hcount (l, false) H = cnt t (readers (w_raw w l))) /\
   w_keyf w t = K.
 
-Definition clean (w : world) : Prop := w_f1 w = [] /\ w_fp w = [] /\ forall l, w_kill w l = false.
+Definition clean (w : world) : Prop :=
+  w_f1 w = [] /\ w_fp w = [] /\ (forall l, w_kill w l = false) /\ (~ pz -> forall p, w_psn w p = false).
 
 Lemma clean_not_faulty w k l : clean w -> faulty w k l = false.
 Proof. intros [F1 [Fp _]]. unfold faulty. rewrite F1, Fp. reflexivity. Qed.
@@ -223,8 +228,12 @@ Proof.
     rewrite E3 by exact N. apply A2.
 Qed.
 
-Lemma clean_ext w w' : w_f1 w' = w_f1 w -> w_fp w' = w_fp w -> (forall l, w_kill w' l = w_kill w l) -> clean w -> clean w'.
-Proof. intros E1 E2 E3 [C1 [C2 C3]]. split; [congruence|]. split; [congruence|]. intros l. rewrite E3. apply C3. Qed.
+Lemma clean_ext w w' : w_f1 w' = w_f1 w -> w_fp w' = w_fp w -> (forall l, w_kill w' l = w_kill w l) ->
+  (forall p, w_psn w' p = w_psn w p) -> clean w -> clean w'.
+Proof.
+  intros E1 E2 E3 E4 [C1 [C2 [C3 C4]]]. split; [congruence|]. split; [congruence|]. split; [intros l; rewrite E3; apply C3|].
+  intros Z p. rewrite E4. now apply C4.
+Qed.
 
 Ltac other_hold := let X := fresh in intros ? ? X; (rewrite hcount_cons_other by (intros E; inversion E; congruence)) || idtac; try reflexivity.
 
@@ -244,73 +253,78 @@ Proof.
     unfold raw_apply, is_free, no_writer, writer_is in *. cbn [writer readers] in *.
     destruct r.
     + (* OLock *) destruct W as [_ W]. destruct wr as [x|]; cbn [is_none andb].
-      { split; [eapply agree_ext; [| |exact A]; intros; reflexivity|eapply clean_ext; [| | |exact C]; intros; reflexivity]. }
+      { split; [eapply agree_ext; [| |exact A]; intros; reflexivity|eapply clean_ext; [| | | |exact C]; intros; reflexivity]. }
       destruct rd as [|y rd]; cbn [is_nil].
-      2:{ split; [eapply agree_ext; [| |exact A]; intros; reflexivity|eapply clean_ext; [| | |exact C]; intros; reflexivity]. }
-      exists ((l, true) :: H), K. split; [|split; [eapply clean_ext; [| | |exact C]; intros; reflexivity|exact W]].
+      2:{ split; [eapply agree_ext; [| |exact A]; intros; reflexivity|eapply clean_ext; [| | | |exact C]; intros; reflexivity]. }
+      exists ((l, true) :: H), K. split; [|split; [eapply clean_ext; [| | | |exact C]; intros; reflexivity|exact W]].
       eapply agree_set_raw; [exact A| | |].
       * rewrite hcount_cons_same, A1. unfold writer_is. cbn [writer]. now rewrite Nat.eqb_refl.
       * rewrite hcount_cons_other by congruence. rewrite A2. reflexivity.
       * intros l0 b N. apply hcount_cons_other. congruence.
     + (* OTry *) destruct W as [Wt Wf]. destruct wr as [x|]; cbn [is_none andb].
-      { exists H, K. split; [|split; [eapply clean_ext; [| | |exact C]; intros; reflexivity|exact Wf]].
+      { exists H, K. split; [|split; [eapply clean_ext; [| | | |exact C]; intros; reflexivity|exact Wf]].
         eapply agree_set_raw; [exact A| | |]; unfold writer_is; cbn [writer readers]; auto. }
       destruct rd as [|y rd]; cbn [is_nil].
-      2:{ exists H, K. split; [|split; [eapply clean_ext; [| | |exact C]; intros; reflexivity|exact Wf]].
+      2:{ exists H, K. split; [|split; [eapply clean_ext; [| | | |exact C]; intros; reflexivity|exact Wf]].
           eapply agree_set_raw; [exact A| | |]; unfold writer_is; cbn [writer readers]; auto. }
-      exists ((l, true) :: H), K. split; [|split; [eapply clean_ext; [| | |exact C]; intros; reflexivity|exact Wt]].
+      exists ((l, true) :: H), K. split; [|split; [eapply clean_ext; [| | | |exact C]; intros; reflexivity|exact Wt]].
       eapply agree_set_raw; [exact A| | |].
       * rewrite hcount_cons_same, A1. unfold writer_is. cbn [writer]. now rewrite Nat.eqb_refl.
       * rewrite hcount_cons_other by congruence. rewrite A2. reflexivity.
       * intros l0 b N. apply hcount_cons_other. congruence.
     + (* OUnlock *) destruct W as [Hin W]. apply hcount_in in Hin. cbn [rop_ex] in Hin.
       destruct wr as [x|]; [destruct (Nat.eqb_spec x t) as [->|Nx]|]; try lia.
-      exists (rem1 (l, true) H), K. split; [|split; [eapply clean_ext; [| | |exact C]; intros; reflexivity|exact W]].
+      exists (rem1 (l, true) H), K. split; [|split; [eapply clean_ext; [| | | |exact C]; intros; reflexivity|exact W]].
       eapply agree_set_raw; [exact A| | |].
       * rewrite hcount_rem1_same, A1. unfold writer_is. cbn [writer]. reflexivity.
       * rewrite hcount_rem1_other by congruence. rewrite A2. reflexivity.
       * intros l0 b N. apply hcount_rem1_other. congruence.
     + (* OLockSh *) destruct W as [_ W]. destruct wr as [x|]; cbn [is_none andb].
-      { split; [eapply agree_ext; [| |exact A]; intros; reflexivity|eapply clean_ext; [| | |exact C]; intros; reflexivity]. }
+      { split; [eapply agree_ext; [| |exact A]; intros; reflexivity|eapply clean_ext; [| | | |exact C]; intros; reflexivity]. }
       destruct (negb (pw l)).
-      2:{ split; [eapply agree_ext; [| |exact A]; intros; reflexivity|eapply clean_ext; [| | |exact C]; intros; reflexivity]. }
-      exists ((l, false) :: H), K. split; [|split; [eapply clean_ext; [| | |exact C]; intros; reflexivity|exact W]].
+      2:{ split; [eapply agree_ext; [| |exact A]; intros; reflexivity|eapply clean_ext; [| | | |exact C]; intros; reflexivity]. }
+      exists ((l, false) :: H), K. split; [|split; [eapply clean_ext; [| | | |exact C]; intros; reflexivity|exact W]].
       eapply agree_set_raw; [exact A| | |].
       * rewrite hcount_cons_other by congruence. rewrite A1. reflexivity.
       * rewrite hcount_cons_same, A2. cbn [readers cnt]. now rewrite Nat.eqb_refl.
       * intros l0 b N. apply hcount_cons_other. congruence.
     + (* OTrySh *) destruct W as [Wt Wf]. destruct wr as [x|]; cbn [is_none andb].
-      { exists H, K. split; [|split; [eapply clean_ext; [| | |exact C]; intros; reflexivity|exact Wf]].
+      { exists H, K. split; [|split; [eapply clean_ext; [| | | |exact C]; intros; reflexivity|exact Wf]].
         eapply agree_set_raw; [exact A| | |]; unfold writer_is; cbn [writer readers]; auto. }
       destruct (negb (pw l)).
-      2:{ exists H, K. split; [|split; [eapply clean_ext; [| | |exact C]; intros; reflexivity|exact Wf]].
+      2:{ exists H, K. split; [|split; [eapply clean_ext; [| | | |exact C]; intros; reflexivity|exact Wf]].
           eapply agree_set_raw; [exact A| | |]; unfold writer_is; cbn [writer readers]; auto. }
-      exists ((l, false) :: H), K. split; [|split; [eapply clean_ext; [| | |exact C]; intros; reflexivity|exact Wt]].
+      exists ((l, false) :: H), K. split; [|split; [eapply clean_ext; [| | | |exact C]; intros; reflexivity|exact Wt]].
       eapply agree_set_raw; [exact A| | |].
       * rewrite hcount_cons_other by congruence. rewrite A1. reflexivity.
       * rewrite hcount_cons_same, A2. cbn [readers cnt]. now rewrite Nat.eqb_refl.
       * intros l0 b N. apply hcount_cons_other. congruence.
     + (* OUnlockSh *) destruct W as [Hin W]. apply hcount_in in Hin. cbn [rop_ex] in Hin. rewrite A2 in Hin.
       assert (M : memb t rd = true) by (apply cnt_memb; exact Hin). rewrite M.
-      exists (rem1 (l, false) H), K. split; [|split; [eapply clean_ext; [| | |exact C]; intros; reflexivity|exact W]].
+      exists (rem1 (l, false) H), K. split; [|split; [eapply clean_ext; [| | | |exact C]; intros; reflexivity|exact W]].
       eapply agree_set_raw; [exact A| | |].
       * rewrite hcount_rem1_other by congruence. rewrite A1. reflexivity.
       * rewrite hcount_rem1_same, A2. cbn [readers]. now rewrite cnt_remove1_same.
       * intros l0 b N. apply hcount_rem1_other. congruence.
-  - (* OKilled *) destruct C as [C1 [C2 C3]]. rewrite C3. exists H, K. split; [exact A|]. split; [now split|exact W].
+  - (* OKilled *) pose proof C as [C1 [C2 [C3 C4]]]. rewrite C3. exists H, K. split; [exact A|]. split; [exact C|exact W].
   - contradiction.
-  - exists H, K. split; [eapply agree_ext; [| |exact A]; intros; reflexivity|]. split; [eapply clean_ext; [| | |exact C]; intros; reflexivity|apply W].
-  - exists H, K. split; [eapply agree_ext; [| |exact A]; intros; reflexivity|]. split; [eapply clean_ext; [| | |exact C]; intros; reflexivity|apply W].
-  - exists H, K. split; [eapply agree_ext; [| |exact A]; intros; reflexivity|]. split; [eapply clean_ext; [| | |exact C]; intros; reflexivity|apply W].
-  - exists H, K. split; [eapply agree_ext; [| |exact A]; intros; reflexivity|]. split; [eapply clean_ext; [| | |exact C]; intros; reflexivity|apply W].
-  - (* ORead *) exists H, K. split; [eapply agree_ext; [| |exact A]; intros; reflexivity|]. split; [eapply clean_ext; [| | |exact C]; intros; reflexivity|apply (proj2 W)].
-  - (* OWrite *) exists H, K. split; [eapply agree_ext; [| |exact A]; intros; reflexivity|]. split; [eapply clean_ext; [| | |exact C]; intros; reflexivity|apply (proj2 W)].
-  - (* OKeyTry *) exists H, true. rewrite A3. split; [|split; [eapply clean_ext; [| | |exact C]; intros; reflexivity|exact W]].
+  - exists H, K. split; [eapply agree_ext; [| |exact A]; intros; reflexivity|]. split; [eapply clean_ext; [| | | |exact C]; intros; reflexivity|apply W].
+  - (* OPoison: only where the logic permits it *)
+    exists H, K. split; [eapply agree_ext; [| |exact A]; intros; reflexivity|]. destruct W as [Z W]. split; [|exact W].
+    destruct C as [C1 [C2 [C3 C4]]]. split; [exact C1|]. split; [exact C2|]. split; [exact C3|]. intros NZ. contradiction.
+  - (* OClearPoison *)
+    exists H, K. split; [eapply agree_ext; [| |exact A]; intros; reflexivity|]. split; [|exact W].
+    destruct C as [C1 [C2 [C3 C4]]]. split; [exact C1|]. split; [exact C2|]. split; [exact C3|]. intros NZ p0.
+    cbn [set_psn w_psn]. unfold upd. destruct (Nat.eqb p0 p); [reflexivity|now apply C4].
+  - exists H, K. split; [eapply agree_ext; [| |exact A]; intros; reflexivity|]. split; [eapply clean_ext; [| | | |exact C]; intros; reflexivity|apply W].
+  - (* ORead *) exists H, K. split; [eapply agree_ext; [| |exact A]; intros; reflexivity|]. split; [eapply clean_ext; [| | | |exact C]; intros; reflexivity|apply (proj2 W)].
+  - (* OWrite *) exists H, K. split; [eapply agree_ext; [| |exact A]; intros; reflexivity|]. split; [eapply clean_ext; [| | | |exact C]; intros; reflexivity|apply (proj2 W)].
+  - (* OKeyTry *) exists H, true. rewrite A3. split; [|split; [eapply clean_ext; [| | | |exact C]; intros; reflexivity|exact W]].
     split; [exact (proj1 A)|]. split; [exact (proj1 (proj2 A))|]. cbn [set_keyf w_keyf]. apply upd_same.
-  - (* OKeyUnlock *) exists H, false. split; [|split; [eapply clean_ext; [| | |exact C]; intros; reflexivity|exact W]].
+  - (* OKeyUnlock *) exists H, false. split; [|split; [eapply clean_ext; [| | | |exact C]; intros; reflexivity|exact W]].
     split; [exact (proj1 A)|]. split; [exact (proj1 (proj2 A))|]. cbn [set_keyf w_keyf]. apply upd_same.
-  - (* OKeyProbe *) exists H, K. rewrite A3. split; [eapply agree_ext; [| |exact A]; intros; reflexivity|]. split; [eapply clean_ext; [| | |exact C]; intros; reflexivity|exact W].
-  - exists H, K. split; [eapply agree_ext; [| |exact A]; intros; reflexivity|]. split; [eapply clean_ext; [| | |exact C]; intros; reflexivity|apply W].
+  - (* OKeyProbe *) exists H, K. rewrite A3. split; [eapply agree_ext; [| |exact A]; intros; reflexivity|]. split; [eapply clean_ext; [| | | |exact C]; intros; reflexivity|exact W].
+  - exists H, K. split; [eapply agree_ext; [| |exact A]; intros; reflexivity|]. split; [eapply clean_ext; [| | | |exact C]; intros; reflexivity|apply W].
 Qed.
 
 
